@@ -94,7 +94,9 @@ def cases(tier, rng):
         hasmask = 1 if rng.random() < 0.4 else 0
         ma = [1 if rng.random() < 0.8 else 0 for _ in range(n)] if hasmask else []
         mb = ([1 if rng.random() < 0.9 else 0 for _ in range(n)] if hasmask and tag == 1 else [])
-        yield {"k": 104, "args": [[req], [tag], [nr], [nc], a, b, [hasmask], ma, mb], "group": f"api-fmt{fmt}-req{req}-tag{tag}"}
+        # the mask is "valid where non-zero": flags may be 1, 255, a basin id, a float
+        mval = rng.choice(["bool", "u8:1", "u8:255", "i32:7", "f64:2.0"]) if hasmask else "bool"
+        yield {"k": 104, "args": [[req], [tag], [nr], [nc], a, b, [hasmask], ma, mb], "call": {"mval": mval}, "group": f"api-fmt{fmt}-req{req}-tag{tag}"}
     for dd in D8_ALL:
         if dd != 247:
             yield {"k": 105, "args": [[dd]], "group": "drdc"}
@@ -127,15 +129,22 @@ def impl(case):
     if k == 104:
         req, tag, nr, nc = a[0][0], a[1][0], a[2][0], a[3][0]
         A, B, hasmask, ma, mb = a[4], a[5], a[6][0], a[7], a[8]
+        def mk(m):
+            mv_ = (case.get("call") or {}).get("mval", "bool")
+            b = np.array(m, dtype=bool).reshape(nr, nc)
+            if mv_ == "bool":
+                return b
+            dt, val = mv_.split(":")
+            return (b * float(val)).astype({"u8": np.uint8, "i32": np.int32, "f64": np.float64}[dt])
         if tag == 0:
             data = np.array(A, dtype=np.uint8).reshape(nr, nc)
-            mask = np.array(ma, dtype=np.uint8).reshape(nr, nc) if hasmask else None
+            mask = mk(ma) if hasmask else None
         elif tag == 1:
             data = np.stack([np.array(A, dtype=np.int32).reshape(nr, nc), np.array(B, dtype=np.int32).reshape(nr, nc)])
-            mask = np.stack([np.array(ma, dtype=bool).reshape(nr, nc), np.array(mb, dtype=bool).reshape(nr, nc)]) if hasmask else None
+            mask = np.stack([mk(ma), mk(mb)]) if hasmask else None
         else:
             data = np.array(A, dtype=np.int16).reshape(nr, nc)
-            mask = np.array(ma, dtype=bool).reshape(nr, nc) if hasmask else None
+            mask = mk(ma) if hasmask else None
         ftype = ["d8", "ldd", "nextxy", "infer"][req]
         st, v = call_impl(pyflwdir.from_array, data, ftype=ftype, mask=mask)
         if st == "ValueError":
